@@ -21,12 +21,17 @@ func ResourcesUniverse(level string) *Universe {
 	parRec := u.Record("ParRec", nil, Opt("p", P(String)))
 	ck := u.ComplexKey("CK", keyRec, parRec)
 	// entity with read-only / create-only annotated fields (C07)
-	ann := u.Record("Ann", nil, Req("id", P(Int64)), Req("name", P(String)), Opt("created", P(Int64)), Opt("inner", ent), Opt("items", ArrayOf(ent)), Opt("byKey", MapOf(ent)))
+	// (innerUrn: a field whose name starts with the name of another annotated field)
+	ann := u.Record("Ann", nil, Req("id", P(Int64)), Req("name", P(String)), Opt("created", P(Int64)), Opt("inner", ent), Opt("items", ArrayOf(ent)), Opt("byKey", MapOf(ent)),
+		Opt("innerUrn", P(String)))
 
 	finders := func(entity *Type) []*Method {
 		return []*Method{
 			{Kind: "FINDER", Name: "byS", Params: []*Field{Req("s", P(String)), Opt("n", P(Int32)), Opt("tags", ArrayOf(P(String)))}, Paging: true, Return: entity, Metadata: meta},
 			{Kind: "FINDER", Name: "bare", Return: entity},
+			// paging is all the parameters these finders have
+			{Kind: "FINDER", Name: "paged", Paging: true, Return: entity},
+			{Kind: "FINDER", Name: "pagedMeta", Paging: true, Return: entity, Metadata: meta},
 		}
 	}
 	actions := func(entity *Type) []*Method {
@@ -137,7 +142,7 @@ func ResourcesUniverse(level string) *Universe {
 	// a record-typed field excluded as a whole, and the return-entity variants of create / partial_update
 	awh := collection("annotatedWhole", "annotatedWholeId", P(Int64), ann, true)
 	awh.ReadOnly = []string{"inner"}
-	awh.CreateOnly = []string{"items", "created"}
+	awh.CreateOnly = []string{"items", "created", "innerUrn"}
 	return u
 }
 
